@@ -192,7 +192,6 @@ def _walk_in_order(node):
             yield from _walk_in_order(t)
         return
     if isinstance(node, ast.AugAssign):
-        yield from _walk_in_order(node.target) if False else ()
         yield ast.Name(id=getattr(node.target, 'id', ''), ctx=ast.Load())
         yield from _walk_in_order(node.value)
         return
@@ -904,7 +903,6 @@ class Interp:
         if self.ctx.generic:
             self.ctx.may_raise.append((AssertionError, self.ctx.assumptions() + [z3.Not(cond)], node, 'assert',
                                        list(self.ctx.all_binders())))
-            self.ctx.preds.append(cond) if False else None
             frame = self.ctx.generic[-1]
             frame.active = z_and(frame.active, cond)
             frame.abort = z_and(getattr(frame, 'abort', True), cond)
